@@ -960,6 +960,8 @@ class Vector():
 		result_dtype = self._dtype
 		if any(x is not None for x in result_values):
 			result_dtype = infer_dtype(result_values)
+		elif result_values and result_dtype is not None:
+			result_dtype = result_dtype.with_nullable(True)   # nothing but None
 		return Vector(
 			result_values,
 			dtype=result_dtype,
@@ -1012,6 +1014,8 @@ class Vector():
 		"""dtype of a reflected-add result: inferred from the values, as __add__ does"""
 		if any(v is not None for v in vals):
 			return infer_dtype(vals)
+		if vals and self._dtype is not None:
+			return self._dtype.with_nullable(True)   # nothing but None
 		return self._dtype
 
 	def __radd__(self, other):
